@@ -5,21 +5,23 @@ ID = "C25"
 LEVEL = "exploration"
 RULE = ("every labelled digraph with entry 0 and all nodes reachable: n<=4 with self loops (39178 graphs, each built in two node "
         "creation orders), n=5 without self loops (all 745472); n=5 ordered-out-degree<=2 BFS-canonical family with self loops "
-        "(24544); thorough adds n=5 (loop-free) in reversed creation order, n=5 with the complete slice {self-loop mask % 4 == VERIF_SEED % 4} of "
+        "(24544); the 8-node chain 0>1>..>7 plus every set of <=3 further edges (30914; thorough: 10 nodes, 125672); thorough adds n=5 (loop-free) in reversed creation order, n=5 with the complete slice {self-loop mask % 4 == VERIF_SEED % 4} of "
         "self-loop masks, and the out-degree<=2 family for n=6 (558712); per graph: LengauerTarjan idoms (iterative, recursive and "
         "naive link-eval), ControlFlowGraph idom / dominates / strictly_dominates (interval test) on all ordered pairs, dominance "
         "frontier, can_reach on all pairs, fixed-point dominators + immediate dominators, post_dominates / immediate post-dominator "
         "with every sink node in turn as exit, and the same CFG shape as an IR procedure through ir_function_to_graph / CfgInfo "
         "(out-degree<=2 only, both yes/no orders); one evaluation = one (graph, analysis[, exit]) comparison; distinct non-trivial "
         "= distinct (n, idom vector, frontier vector) with a non-empty frontier, resp. (n, exit, immediate-post-dominator vector) "
-        "with >=2 nodes reaching the exit")
+        "with >=2 nodes reaching the exit; VERIF_SEED is not used by the quick tier (its bound is explored completely)")
 ASSUMPTIONS = [
     "oracle: definitions by brute force on bitmasks written in /verif: a dom b <=> b not reachable from entry with a deleted (or a = b); "
     "idom = the strict dominator dominated by all other strict dominators; DF(x) = {y: x dom some pred of y and not x sdom y}; "
     "a pdom b <=> b cannot reach the exit with a deleted (or a = b); reach = transitive closure (paths of >= 1 edge)",
     "post-dominance is only demanded for nodes b that can reach the exit (for the others the definition is vacuous; counted as unclassified)",
+    "an exit node that has successors is not judged (ppci's own CFGs always use an artificial sink exit and the API does not say what such an "
+    "exit means); counted as unclassified, one observation is recorded in the note pdom_exit_with_successor",
     "can_reach(a, a) for a node that is on no cycle is not judged (reflexive or not is a convention; counted as unclassified)",
-    "graphs with 6 nodes only from the out-degree<=2 family; no graphs above 6 nodes; unreachable nodes are outside the property",
+    "graphs with 6 nodes only from the out-degree<=2 family, 8/10 nodes only from the chain-plus-3-edges family (no random larger CFGs: the framework forbids sampling); unreachable nodes are outside the property",
     "object-identity hash order of ppci's successor sets is fixed by PYTHONHASHSEED=0 / no ASLR; role permutations are covered by "
     "enumerating all labellings and two node creation orders",
 ]
@@ -486,9 +488,9 @@ def full_worker(p, shard, n, nparts, variants, loopmasks):
                     check_graph(p, n, adj2, v)
 
 
-def family_worker(p, shard, n):
+def family_worker(p, shard, n, name="outdeg2"):
     for adj in shard:
-        p.count("graphs_outdeg2_n%d" % n)
+        p.count("graphs_%s_n%d" % (name, n))
         check_graph(p, n, adj, 0)
 
 
@@ -552,6 +554,11 @@ def run(ctx):
         fam = graphs.outdeg2_canonical(n)
         ctx.note("outdeg2_family_n%d" % n, len(fam))
         ctx.pmap(family_worker, fam, extra=(n,))
+    # larger structured CFGs (deep dominator trees: longer link-eval paths): chain + every set of <= 3 further edges
+    n = 8 if ctx.quick else 10
+    fam = graphs.chain_plus(n, 3)
+    ctx.note("chain_plus_family", "chain of %d nodes + every set of <=3 further edges: %d graphs" % (n, len(fam)))
+    ctx.pmap(family_worker, fam, extra=(n, "chain_plus3"))
     if "fixed_point.calculate_dominators/entry-has-predecessor" in ctx.violations:
         ctx.note("fixed_point_note", "calculate_dominators also iterates the entry node: with an edge into the entry its set grows to all nodes "
                  "(and for some node orders the iteration never reaches a fixed point)")
